@@ -6,6 +6,7 @@ import (
 	"os"
 	"regexp"
 	"strings"
+	"verif/internal/names"
 
 	"pgregory.net/rapid"
 	"verif/internal/crash"
@@ -54,7 +55,7 @@ func Gen() *rapid.Generator[c02.Case] {
 	})
 }
 
-var walFile = regexp.MustCompile(`^wal/\d+\.wal$`)
+var walFile = regexp.MustCompile(`^` + regexp.QuoteMeta(names.WalDir) + `/\d+\.wal$`)
 
 // newJudge returns the C13 oracle; it tracks, across the boundaries of one run, how many operations
 // preceded the last WAL rotation (or clean shutdown / completed recovery) that had completed.
